@@ -348,22 +348,22 @@ def run_revisit(spec, tag):
 
 def check_revisit(spec, ctx, tag="replay"):
     out = run_revisit(spec, tag)
-    names = ["v", "w", "vt", "wt", "phi_major"]
     for which, pts in (("first", spec["first"]), ("second", spec.get("second", []))):
         for (x, t), a, b in zip(pts, out[which], out[which + "_again"]):
-            for nm, va, vb in zip(names, a, b):
-                if va != vb and not (va != va and vb != vb):
-                    raise Violation(f"revisit:{nm}", f"{nm}({x!r}{'' if nm == 'phi_major' else ', ' + repr(t)}) returned {va!r} early in the process and "
-                                                     f"{vb!r} after {spec['K']} evaluations at other points")
-            # the values the CHILD observed are judged by the ordinary oracle (the second set was evaluated right after calls with the same
-            # numbers in wrong types - Decimal, Fraction, str, None - that raised or not: they must not have left anything behind)
-            try:
-                check_vw_point(x, t, None, given=(a[0], a[1]))
-                check_tie_point(x, t, None, given=(a[2], a[3]))
-                if abs(x) <= 37.5:
-                    check_phi_point(x, None, given=a[4])
-            except Violation as v:
-                raise Violation(("after-failed-evaluation:" if which == "second" else "first-evaluation:") + v.bucket, v.detail) from None
+            # C17 states accuracy, not repeatability: both the early and the late values the CHILD observed are judged by the ordinary
+            # oracle (a difference between them is only recorded).  The second set was evaluated right after calls with the same numbers
+            # in wrong types - Decimal, Fraction, str, None - that raised or not: they must not have left anything behind.
+            if a != b:
+                ctx.label("early-and-late-values-differ")
+            for when, vals_ in (("early", a), (f"after {spec['K']} other evaluations", b)):
+                try:
+                    check_vw_point(x, t, None, given=(vals_[0], vals_[1]))
+                    check_tie_point(x, t, None, given=(vals_[2], vals_[3]))
+                    if abs(x) <= 37.5:
+                        check_phi_point(x, None, given=vals_[4])
+                except Violation as v:
+                    pre = "revisit:" if when != "early" else ("after-failed-evaluation:" if which == "second" else "first-evaluation:")
+                    raise Violation(pre + v.bucket, f"({when}) " + v.detail) from None
     ctx.called(2 * 5 * len(spec["first"]) + 5 * spec["K"])
     ctx.nontrivial_if(spec["K"] >= 33000)
 
@@ -409,7 +409,8 @@ PROPERTY = Property(
         Clause(name="revisit-after-many", kind="custom", custom=revisit_custom, check=check_revisit, quick=32, thorough=128, shards_quick=16, shards_thorough=16,
                rule="one fresh child interpreter per case: 4-13 generated points (the default-v-default point first) are the first evaluations of v, w, vt, wt, "
                     "phi_major in the process; then 40 000 (quick) / 200 000 (thorough) evaluations at other points drawn from a Hypothesis-seeded PRNG; then the "
-                    "first points again: identical values (and the ordinary accuracy oracle on them); non-trivial = at least 33 000 evaluations in between"),
+                    "first points again; every value the child observed, early and late, is judged by the ordinary accuracy oracle (C17 states accuracy, not repeatability: a mere "
+                    "difference between early and late values is only recorded); non-trivial = at least 33 000 evaluations in between"),
         Clause(name="phi", strategy=phis(), check=check_phi, quick=6000, thorough=100000,
                rule="x in [-37.5, 38] (half of them in the lower tail) and +-64-ulp walks at -37.5, 0, +-8.3, the guard; non-trivial = x < -5 or a walk"),
     ],
